@@ -5,6 +5,7 @@ import collections
 import copy
 import functools
 import itertools
+import keyword
 import re
 import string
 import textwrap
@@ -1961,7 +1962,7 @@ def _unused_loop_variable_names(root: ast.AST) -> Iterable[str]:
     for name_length in range(3):
         for new_name in itertools.product(string.ascii_lowercase, repeat=name_length):
             new_name = "".join(new_name)
-            if new_name and new_name not in used_names:
+            if new_name and new_name not in used_names and not keyword.iskeyword(new_name):
                 yield new_name
 
 
